@@ -23,7 +23,11 @@ func VH_C17_universal_time() {
 	if dst {
 		vrt.Assume(q-4 >= -79) // the standard-time offset must itself be expressible
 	}
-	t := time.Date(2000+yy, time.Month(mo), d, h, mi, s, 0, vrt.ZoneDST(off, dst))
+	// the rule in force may end (Time.ZoneBounds) and be followed by any standard offset on the grid: the offset in
+	// force at the instant is still what is encoded (the library takes daylight saving as one hour, whatever follows)
+	nq := int(vrt.I8("nextq"))
+	vrt.Assume(nq >= -75 && nq <= 75)
+	t := time.Date(2000+yy, time.Month(mo), d, h, mi, s, 0, vrt.ZoneDST2(off, dst, nq*900, vrt.Bool("ruleEnds")))
 	n := EncodeUniversalTimeAndLocalTimeZoneToNas(t)
 	back := DecodeUniversalTimeAndLocalTimeZone(n)
 	vrt.Assert(back.Year() == 2000+yy && int(back.Month()) == mo && back.Day() == d, "universal time: date round-trips")
